@@ -90,6 +90,9 @@ NOT_APPLICABLE = []
 
 # what later rounds added to each check (appended to the level text)
 ADDED = {
+    "C03": " The humidity constructor is swept over its whole 1 % grid with half-LSB tolerance.",
+    "C06": " Pairs include ventilation requests (one index byte to a fan / CO2 sensor) with a recorded reply of that code.",
+    "C13": " Port histories include listen-only gateways (disable_sending) on a live port.",
     "C01": " Also: start-up of a serial gateway (the stick answers k >= 1 signature polls late and at once, in the read that carries traffic; repeated after the connection; a neighbour's signature), and saved states with one odd key (timezone-aware, undatable, empty, at either end of the calendar) handed to Gateway.start(); ValueError is accepted only for lines without a frame or with an undatable stamp.",
     "C02": " The log session uses each of the three log handlers the library can be configured with (plain, size-rotated, midnight-rotated) and compares comments as well.",
     "C04": " Every shard walks its grids under one of five POSIX time zones (DST gaps and repeats, a 45-minute offset); half the ids are asked for in the friendly form first; signed ids are among the out-of-range probes; ISO-text and object forms of a date-time must encode alike.",
@@ -97,14 +100,14 @@ ADDED = {
     "C07": " The alphabet also has events queued behind the buffer check of a call (a packet with the command's own header, a disconnect), caller cancellations (timed, or in the iteration of another caller's call), writes failing with an error the transport did not convert, and per-caller num_repeats.",
     "C08": " Clause 'repeats not asked for': a command sent without repeats is never written twice within a fraction of its echo wait (per-caller num_repeats in the alphabet).",
     "C09": " The MQTT slice has flood episodes that spend the transport's whole transmit allowance before the quiet period and the probe; the alphabet additions of C07 apply.",
-    "C10": " Scenario 'mute stick' (never identified: the placeholder id in received packets is an unlisted id); device creation is judged in lax restores as well.",
+    "C10": " Configurations include the predicted gateway (known_list HGI entry) being block-listed as well. Scenario 'mute stick' (never identified: the placeholder id in received packets is an unlisted id); device creation is judged in lax restores as well.",
     "C11": " Pattern 'givers-up': callers withdraw requests while the transport holds them back; what is offered afterwards must still be written.",
     "C12": " Fault plans include channel jams (every transmission of one kind of request fails, so the send itself fails); the quick tier walks through all plans.",
     "C14": " Part F: packet logs whose stamps step back (DST end, NTP) - every single-code attribute written after the step reports its last-received message.",
-    "C15": " A schema that cannot be obtained at all is a refutation; histories include fault-log reads by other requesters and an 'old head' (first packets 25-47 h older).",
+    "C15": " Generated schemas have up to three UFH controllers. A schema that cannot be obtained at all is a refutation; histories include fault-log reads by other requesters and an 'old head' (first packets 25-47 h older).",
     "C16": " Histories include an 'old head' (first packets 25-47 h older than the rest, honoured in full on the port stack) and fault-log reads by other requesters.",
     "C18": " Family 'sequence' on a clean link: write, edit at the controller (whole schedule or one late setpoint), learn of it (fetch / overheard set), write again (the held, an earlier or a new schedule): every write must put exactly its schedule into the controller by its own frames, every fetch must return what the controller holds.",
-    "C19": " After each real get_faultlog() the saved-state lines of fault-log packets must be the packets the gateway holds.",
+    "C19": " After each real get_faultlog() the saved-state lines of fault-log packets must be the packets the gateway holds; the stick echoes slowly while another reader is being answered (its replies are heard while ours still awaits its echo); the push-down oracle uses the log's real depth (64).",
     "C20": " Flows include a heating pairing with the 10E0 addenda (OEM code 00); the fault alphabet has 'at_deadline' arrivals (a frame reaches the waiting end in the loop iteration in which its wait runs out; loop iterations are given half a millisecond of virtual time for that).",
 }
 NOTE_FIX = {
